@@ -169,6 +169,7 @@ class Endpoint:
     def _call(self, api: str, fn, arg_desc, *args):
         before = state_snapshot(self.h)
         cev = self.log.add("call", self.side, api=api, arg=arg_desc, before=before, qlen=before[5])
+        vclock.use(self.w.clock)
         audit.enter_api()
         try:
             res = fn(*args)
@@ -266,7 +267,7 @@ class World:
                 raise KeyError(f"unknown config keys {unknown}")
             c.update(copy.deepcopy(cfg))
         self.cfg = c
-        vclock.reset()
+        self.clock = vclock.reset()
         self.log = EventLog()
         self.data = make_content(c["size"], c["content"]) if not c["metadata_only"] else b""
         self.sandbox: Path | None = None
@@ -744,6 +745,7 @@ class Runner:
             raise ValueError(act)
 
     def advance_clock(self) -> None:
+        vclock.use(self.w.clock)
         ms = vclock.advance_to_next_expiry()
         self.expiries += 1
         self.w.log.add("clock", "-", advanced_ms=ms, now=vclock.now_ms(), n=self.expiries)
@@ -772,8 +774,15 @@ class Runner:
             self.flush()
 
     def run(self) -> str:
+        for _ in self.steps():
+            pass
+        return self.outcome
+
+    def steps(self):
+        """The run loop as an iterator (one scheduler round per step) so that several worlds can be stepped in alternation (C11)."""
         late_pending = False
         while self.rounds < self.max_rounds:
+            vclock.use(self.w.clock)
             self.progress_flag = False
             self.round()
             self.rounds += 1
@@ -782,19 +791,20 @@ class Runner:
                 self._release("late")
             if self.quiescent():
                 self.outcome = "done"
-                return self.outcome
+                return
             if not self.progress_flag:
                 if any(h[0] == "quiet" or isinstance(h[0], tuple) for h in self.held):
                     self._release("quiet")
+                    yield
                     continue
                 if self.expiries >= self.max_expiries:
                     self.outcome = "stuck"
-                    return self.outcome
+                    return
                 self.advance_clock()
                 if any(h[0] == "late" for h in self.held):
                     late_pending = True
+            yield
         self.outcome = "maxrounds"
-        return self.outcome
 
 
 def finished_events(w: World, side: str) -> list:
